@@ -221,6 +221,12 @@ def main(argv=None):
         seen_v.add(ident)
         rp = propmod.write_replay(pid, ob, HERE)
         reproduced = propmod.try_native_replay(pid, ob, rp)
+        if (ob.get("model") or {}).get("__weak__") and not reproduced:
+            # candidate counterexample of a relaxed query that does not replay: undecided
+            seen_v.discard(ident)
+            ob = dict(ob, reason="weak counter-model did not replay natively")
+            unknown.append(ob)
+            continue
         tail = "" if reproduced else " no-failing-input-found"
         print(f"VIOLATION property={pid} replay={rp}{tail}")
         print(f"  failed obligation: {ident}  [{ob['where']}]")
